@@ -194,8 +194,11 @@ func (trans *BinOpTransform) initMatchType(para *influxql.BinOp, lExpr, rExpr in
 	trans.matchType = para.MatchCard
 	trans.OpType = para.OpType
 	trans.On = para.On
-	trans.MatchKeys = para.MatchKeys
-	trans.MatchKeysForMatchCompute = para.MatchKeys
+	// Both lists are sorted below and one of them is extended: they must not share the backing
+	// array of para.MatchKeys (with spare capacity the appended label and the second sort
+	// overwrote trans.MatchKeys, its largest label was lost).
+	trans.MatchKeys = append([]string(nil), para.MatchKeys...)
+	trans.MatchKeysForMatchCompute = append([]string(nil), para.MatchKeys...)
 	trans.IncludeKeys = para.IncludeKeys
 	trans.ReturnBool = para.ReturnBool
 	if trans.matchType == influxql.OneToMany {
